@@ -26,6 +26,10 @@ CLAIMED = {
     text="proof (partial): Coq theorems (Props/C05.v): whatever SymPy answers inside the order search, an accepted result has an order between 1 and the documented maximum at which the identity f^(n) = sum a_k f^(k) was verified (and at no lower solvable order), otherwise the entry is rejected; and (Coquelicot, any order n) if f satisfies such an identity with constant coefficients then ANY update family that is the identity at step 0 and obeys the companion system reproduces f and its derivatives from (f(0),...,f^(n-1)(0)) exactly for every T >= 0 and over any split into steps. Tie: functions with minimal order known by construction (orders 1-5, out-of-class functions, identically vanishing ones) — Shape.from_function outcome vs the model run with the ideal oracle (in Coq); probe: stepping with the returned propagators from the returned initial values over random step sequences vs f(T), f'(T), ... at 30 digits, initial values = f^(k)(0), no t in the factors, order <= 4.",
     note="Partial: SymPy's diff/solve/simplify inside the search are oracles. Trusted: Coq kernel/vm_compute; stdlib real-number axioms + classic + funext (exactness theorems); harness; mpmath as probe oracle. Functions exceeding the time limit are excluded and counted.",
     technique="Coq proof (search-loop invariant + Coquelicot uniqueness for companion systems) + known-minimal-order correspondence", ref="5/C05"),
+ "C06": dict(
+    text="proof (partial): Coq theorems (Props/C06.v): which variables are solved analytically is equivariant under any injective relabelling of the dependency graph and initial verdicts (via the worklist gfp characterisation); two presentations whose right-hand sides are the same function give rows with the same meaning (C02); two update families for one linear system that are the identity at step 0 and obey the equations coincide for every state and step (Coquelicot uniqueness). In the model names are indices, so consistent renaming is invisible by construction; the string-level handling of names is tied by twin runs: every generated system (some with bounds) vs entry permutations, injective renamings from an adversarial pool (names that exist in SymPy's own namespace, prefixes of each other) and function-of-time / n-th order / first-order-chain formulations — success, analytic set, numerical fingerprints of all update maps and initial values compared after mapping.",
+    note="Partial: SymPy's exp/simplify assumed equivariant (validated by the twins). Trusted: Coq kernel/vm_compute; stdlib real-number axioms + classic + funext (c06_updates_agree only); harness.",
+    technique="Coq proof (graph-relabelling equivariance, uniqueness corollaries) + twin-run differential test", ref="5/C06"),
  "C07": dict(
     text="proof + translator: the option store's defaults, Config.reset, the exact sequence of store operations one call of _analysis performs, the shape of _read_global_config and the absence of any other write to the store in odetoolbox/*.py are regenerated from /repo on every run; Props/C07.v proves that this sequence starts with a real reset (no return before it), hence the store a call works with is independent of every earlier call (successful or failing, incl. unknown-option assertions half-way through), and that every option the call does not specify has its default. Tie: Config.config observed after every call of random histories vs the model (in Coq). The remaining assumption — analysis reads no other mutable global — and the other two clauses (input not modified, hash-seed independence) are probed: last call of each history vs the same call first in a fresh interpreter, deep equality of the input, several PYTHONHASHSEEDs compared mathematically.",
     note="Trusted: Coq kernel/vm_compute; translator (fail-closed); harness. Process-level behaviour (fresh interpreter, hash seeds) is differential testing, not proof.",
